@@ -124,13 +124,26 @@ func bool1(b bool) exp {
 
 // ---------------------------------------------------------------- numbers
 
+// An optional '-' followed by decimal digits denotes its decimal value; leading
+// zeros are allowed (007, 010, 08, -09, 0000 are ubiquitous in logs and must
+// never be read as anything but 7, 10, 8, -9, 0). Everything else (+5, 0x10,
+// 1_000, exponents, zero-padded decimals with a fraction) stays undefined.
 var (
-	reInt = regexp.MustCompile(`^-?(0|[1-9][0-9]*)$`)
+	reInt = regexp.MustCompile(`^-?[0-9]+$`)
 	reDec = regexp.MustCompile(`^-?(0|[1-9][0-9]*)\.[0-9]+$`)
 )
 
+// canonInt is the canonical decimal text of a kInt string ("007" -> "7", "-00" -> "0")
+func canonInt(s string) string {
+	b, ok := new(big.Int).SetString(s, 10)
+	if !ok {
+		return s
+	}
+	return b.String()
+}
+
 const (
-	kInt  = iota // canonical decimal integer
+	kInt  = iota // decimal integer: optional '-', digits (leading zeros allowed)
 	kDec         // canonical decimal with fraction digits
 	kNon         // clearly not a number in any notation
 	kGrey        // anything else: not judged
@@ -413,7 +426,10 @@ func reference(h string, a []string) exp {
 		case v > hi:
 			return exact("max")
 		}
-		return exact(a[0]) // canonical, so this is also strconv.Itoa(v)
+		if c := canonInt(a[0]); c != a[0] {
+			return oneOf(a[0], c) // zero-padded input: the value as given or as a plain integer
+		}
+		return exact(a[0])
 	case "len":
 		b, r := len(a[0]), utf8.RuneCountInString(a[0])
 		if b == r {
@@ -814,8 +830,15 @@ func refCompare(h string, a []string) exp {
 		c = x.big.Cmp(y.big)
 	} else {
 		// decimals are outside "two integers": rejecting them or comparing their values are both fine
-		rx, ok1 := new(big.Rat).SetString(a[0])
-		ry, ok2 := new(big.Rat).SetString(a[1])
+		sx, sy := a[0], a[1]
+		if x.kind == kInt {
+			sx = canonInt(sx)
+		}
+		if y.kind == kInt {
+			sy = canonInt(sy)
+		}
+		rx, ok1 := new(big.Rat).SetString(sx)
+		ry, ok2 := new(big.Rat).SetString(sy)
 		if !ok1 || !ok2 || !x.fok || !y.fok {
 			return abstain("compare: unparsable decimal")
 		}
